@@ -1,11 +1,12 @@
 from common import COMMON_TRUST
-from wt_common import WT_LEAN, WT_TRUST, wt_engine
+from wt_common import WT_LEAN, WT_TRUST, wt_engine, e2e_engine, E2E_TRUST
 
 PROP = {
     "generated": [],
     "lean_modules": ["SwimVerif.Model.MapLane", "SwimVerif.Model.ValueLane", "SwimVerif.Proofs.ValueLane",
                      "SwimVerif.Model.AssocList"],
     "engines": [
+        e2e_engine("C03"),
         {"name": "ml", "crate": "core", "bin": "sv-ml", "machine": "ml",
          "reasons": r"snapshot-.*|sync-.*|synced-.*|unparsable.*",
          "cases": {"quick": 4000, "thorough": 400000}, "min_shard": 500, "nontrivial_min_ops": 6},
@@ -25,7 +26,7 @@ PROP = {
                   "The runtime half (implicit link on the first targeted response; MapSynced draining the uplink "
                   "queue) is covered by the wt engine under C04, and the composition by the end-to-end rig where "
                   "present.",
-    "trusted_base": COMMON_TRUST + ["modelled, not verified: BTreeMap (sorted association list), Recon encoding of "
+    "trusted_base": COMMON_TRUST + E2E_TRUST + ["modelled, not verified: BTreeMap (sorted association list), Recon encoding of "
                                     "lane responses (frames are decoded with the real decoder)"],
     "assumptions": ["a remote has at most one sync request outstanding per lane in the monitor's attribution"],
 }
